@@ -783,6 +783,7 @@ func (ch *Channel) connectionCloseStateChange(c *Connection) {
 	if chState != ChannelStartClose && chState != ChannelInboundClosed {
 		return
 	}
+	verifPoint("chan.closeStateChange.afterRead", c.connID)
 
 	ch.mutable.RLock()
 	minState := ch.getMinConnectionState()
@@ -878,6 +879,7 @@ func (ch *Channel) Close() {
 		}
 	}()
 
+	verifPoint("chan.Close.afterUnlock", 0)
 	for _, c := range connections {
 		c.close(LogField{"reason", "channel closing"})
 	}
